@@ -11,7 +11,7 @@ ASSUMPTIONS = ["signatures present are non-malleable (ground-truth table)"]
 
 
 def variant(rng, mats, prods):
-    kind = rng.choice(["mat_hash", "prod_hash", "mat_extra", "prod_extra", "prod_missing", "prod_rename"])
+    kind = rng.choice(["mat_hash", "prod_hash", "mat_extra", "prod_extra", "prod_missing", "prod_rename", "prod_alias", "prod_alias", "mat_alias"])
     m, p = {k: dict(v) for k, v in mats.items()}, {k: dict(v) for k, v in prods.items()}
     if kind == "mat_hash" and m:
         m[rng.choice(sorted(m))] = {"sha256": "ab" * 32}
@@ -23,6 +23,22 @@ def variant(rng, mats, prods):
         del p[rng.choice(sorted(p))]
     elif kind == "prod_rename" and p:
         k = rng.choice(sorted(p)); p[k + ".bak"] = p.pop(k)
+    elif kind in ("prod_alias", "mat_alias") and (p if kind == "prod_alias" else m):
+        # the same record under another spelling of the path (separator, dot segment, doubled slash, letter case,
+        # normalisation form, trailing blank) - or that spelling *in addition*, with another hash, listed first.
+        # Paths are compared as strings: this link reports something else.
+        import unicodedata
+        d = p if kind == "prod_alias" else m
+        k = rng.choice(sorted(d))
+        alias = rng.choice([k.replace("/", "\\") if "/" in k else "./" + k, "./" + k, k.replace("/", "//") if "/" in k else k + "/",
+                            k.upper() if k.upper() != k else k.lower(), unicodedata.normalize("NFD", k) if unicodedata.normalize("NFD", k) != k else k + " ",
+                            k + " "])
+        if alias == k:
+            alias = k + " "
+        if rng.random() < 0.5:
+            d[alias] = d.pop(k)
+        else:
+            rest = dict(d); d.clear(); d[alias] = {"sha256": "ef" * 32}; d.update(rest)
     else:
         p["extra-p"] = {"sha256": "22" * 32}
         kind = "prod_extra"
